@@ -202,7 +202,7 @@ def boundary_draws(weights):
 
 def run(tier: str, seed: int) -> dict:
     quick = tier != "thorough"
-    dl = Deadline(20 if quick else 240)
+    dl = Deadline(20 if quick else 200)
     rng = pyrandom.Random(seed)
     find = Findings()
     evaluations = nontrivial = 0
